@@ -2186,8 +2186,8 @@ def main():
         tasks.append(("xml", "mut", i, run.seed, 60, 0))
     # ---- the real CLI on a seeded sample (same pools and generators), in the same parallel pass
     rng = run.rng("cli")
-    ncli = {"yaml": run.size(80, 3000), "cbor": run.size(50, 2000), "toml": run.size(50, 2000), "csv": run.size(50, 2000),
-            "tsv": run.size(50, 2000), "xml": run.size(40, 1200)}
+    ncli = {"yaml": run.size(80, 800), "cbor": run.size(50, 500), "toml": run.size(50, 500), "csv": run.size(50, 500),
+            "tsv": run.size(50, 500), "xml": run.size(40, 300)}
     for F in VALUE_FORMATS:
         pv = [v for v, _t, _g in pool_values(F, rng)]
         rej = [v for v in pv if classify(F, v)[0] == "reject"]
@@ -2202,6 +2202,16 @@ def main():
         tasks.append(("cli", "xml", [(d.hex(), "in", "generated") for d in xdocs[lo:lo + 10]], jaq))
     # big pool parts first
     tasks.sort(key=lambda t: 0 if t[1] == "pool" and t[0] == "yaml" else 1)
+    # spread the process-spawning CLI tasks between the computing ones
+    ctasks = [t for t in tasks if t[0] == "cli"]
+    others = [t for t in tasks if t[0] != "cli"]
+    step = max(1, len(others) // max(1, len(ctasks)))
+    tasks = []
+    for i, t in enumerate(others):
+        tasks.append(t)
+        if i % step == step - 1 and ctasks:
+            tasks.append(ctasks.pop())
+    tasks += ctasks
 
     import time
     phases = {}
